@@ -5,6 +5,8 @@
 //! with oracles written from the property text in plain Vec/f64 arithmetic.
 #[path = "../util.rs"]
 mod util;
+#[path = "../iterproto.rs"]
+mod iterproto;
 use dasp_frame::Frame;
 use dasp_sample::Sample;
 use dasp_signal::window::{Window, Windower};
@@ -154,7 +156,7 @@ fn run_win(a: &Args) {
 }
 
 // ------------------------------------------------------------------------------------------------ wdr
-trait Smp: Sample + Copy + PartialEq {
+trait Smp: std::fmt::Debug + Sample + Copy + PartialEq {
     const NAME: &'static str;
     fn show(self) -> String;
     fn random(rng: &mut Rng) -> Self;
@@ -250,6 +252,26 @@ fn one_case<S: Smp, const N: usize, W: WindowFn<f64, Output = f64>>(st: &mut Str
             let remaining = n_chunks - i.min(n_chunks);
             let ok = h.0 <= remaining && h.1.map(|u| remaining <= u).unwrap_or(true);
             if !ok { st.oracle_fail(&format!("size_hint before next #{} does not bracket the {} chunks still to come", i, remaining), &short, &remaining.to_string(), &show_hint(*h)); } else { st.oracle_ok(1); }
+        }
+        // every other way of consuming the windower (`nth`, `skip`, `step_by`, `count`, `last`, `fold`,
+        // `size_hint` in between) must yield the same chunks: "yields exactly floor((L-b)/h)+1 chunks …
+        // the first b frames of chunk k being frames k*h .. k*h+b-1 each scaled by the window value"
+        if bin <= l && want_chunks * bin <= 4096 && win.len() == bin {
+            let reference: Vec<Vec<[S; N]>> = (0..want_chunks).map(|k| (0..bin).map(|j| frames[k * hop + j].mul_amp(win[j])).collect()).collect();
+            for _ in 0..2 {
+                let script = iterproto::gen_script(rng, want_chunks, iterproto::Caps { double_ended: false, exact: false, finite: true });
+                let got = guarded(|| {
+                    let w: Windower<[S; N], W> = Windower::new(&frames, bin, hop);
+                    iterproto::run_fwd_map(w, &script, |c| c.take(bin).collect::<Vec<[S; N]>>())
+                });
+                match got {
+                    None => st.oracle_fail(&format!("windower panicked when consumed by {:?}", script), &short, "", "panic"),
+                    Some(got) => match iterproto::check(&reference, &script, &got, false, true).0 {
+                        Some((what, e, o)) => st.oracle_fail(&format!("windower: {}", what), &short, &e, &o),
+                        None => { st.oracle_ok(script.len() as u64); st.count("iterator_protocol_scripts"); }
+                    },
+                }
+            }
         }
         st.count(if l < bin { "L<b" } else if l == bin { "L==b" } else if (l - bin) % hop != 0 { "last_partial_hop" } else { "exact_fit" });
         if hop > l { st.count("h>L"); }
